@@ -197,6 +197,11 @@ func ruleFirstMatch(p *Program, r *Result, regexSites []*ssa.Call) []*ssa.Functi
 				if isVarargArray(a) {
 					continue
 				}
+				// a variable declared inside the loop body is a new (zeroed) one in every iteration: the spill of a
+				// folded helper's parameter, a per-iteration temporary
+				if blockReachFromSelf(a.Block()) && sameInnermostLoop(a.Block(), b) {
+					continue
+				}
 				carried = append(carried, fmt.Sprintf("local %s written in the loop at %s", a.Comment, p.Pos(st.Pos())))
 			}
 		}
@@ -264,6 +269,20 @@ func ruleFirstMatch(p *Program, r *Result, regexSites []*ssa.Call) []*ssa.Functi
 				"an invalid pattern does not deny at once (the error edge of the match continues or returns a grant)")
 			// subject: the argument string without trailing <cr>
 			subj := s.Common().Args[len(s.Common().Args)-1]
+			// compiled first, matched by a method of the compiled expression: the subject is that call's argument
+			if cf := s.Common().StaticCallee(); cf != nil && strings.Contains(cf.Name(), "Compile") {
+				subj = nil
+				for _, c := range allCalls(E) {
+					mf := c.Common().StaticCallee()
+					if mf == nil || mf.Pkg == nil || mf.Pkg.Pkg.Path() != "regexp" || mf.Signature.Recv() == nil || mf.Name() != "MatchString" || len(c.Common().Args) != 2 {
+						continue
+					}
+					re := c.Common().Args[0]
+					if call, idx, ok := extractOf(re); (ok && call == s && idx == 0) || re == ssa.Value(s) {
+						subj = c.Common().Args[1]
+					}
+				}
+			}
 			okSubj := false
 			if sc, ok := subj.(*ssa.Call); ok {
 				if f := sc.Common().StaticCallee(); f != nil && f.Name() == "CommandArgsNoLE" && typeIsRecv(f, modPath, "Args") {
@@ -510,6 +529,11 @@ func ruleApplies(p *Program, E *ssa.Function, ret *ssa.Return) (bool, string) {
 						conds = append(conds, "pattern matched")
 					}
 				}
+			case *ssa.Call:
+				// re.MatchString(s) on a compiled expression
+				if f := c.Common().StaticCallee(); f != nil && f.Pkg != nil && f.Pkg.Pkg.Path() == "regexp" && f.Signature.Recv() != nil && (f.Name() == "MatchString" || f.Name() == "Match") && taken {
+					conds = append(conds, "pattern matched")
+				}
 			}
 		}
 	}
@@ -603,4 +627,18 @@ func ruleAuthorProvenance(p *Program, r *Result, evals []*ssa.Function) {
 		r.undecided("R-PROVENANCE", "author-replies", "-", "no authorization reply site found")
 	}
 	r.floor("R-PROVENANCE", 9)
+}
+
+// sameInnermostLoop: every cycle through block x also passes block a (the allocation runs again before x can be
+// reached a second time).
+func sameInnermostLoop(a, x *ssa.BasicBlock) bool {
+	if a == x {
+		return true
+	}
+	for _, s := range x.Succs {
+		if blockReach(s, map[*ssa.BasicBlock]bool{a: true})[x] {
+			return false
+		}
+	}
+	return true
 }
